@@ -11,7 +11,7 @@ def gen(run):
 fam.make(globals(), "C02", ["C02"], gen, second_run=True)
 COQ_TARGETS = ["theories/Props/C02.vo"]
 REQUIRES = ["From Coq Require Import List NArith ZArith Bool.", "From Coq.Strings Require Import Byte.",
-            "From MS Require Import Base.Bytes Base.Outcome Base.Prog Mp4.Header Mp4.Box Mp4.San Mp4.Spec Props.C02.",
+            "From MS Require Import Base.Bytes Base.Outcome Base.Prog Mp4.Header Mp4.Box Mp4.San Mp4.Spec Mp4.SpliceSpec Props.C02.",
             "Import ListNotations.", "Open Scope N_scope."]
 COQCHK = ["MS.Props.C02"]
 THEOREMS = [
@@ -30,22 +30,33 @@ THEOREMS = [
     blen mp = blen (tb_payload inp m) /\\
     explicit_sizes (md_input md pad) = true /\\
     ((psz = 0 /\\ pad = 0) \\/ psz = 8 + pad)"""),
+    ("C02_fixpoint", """forall (cfg : config) (lenient lenient2 : bool) (inp : input) (fuel fuel2 : nat) (o : out) (md : bytes) (pad : N),
+  max_metadata_size cfg < 4294967296 -> ilen inp <= U64MAX ->
+  (forall t, cumulative_mdat_box_size cfg = Some t -> t <= U32MAX) ->
+  mp4_sanitize cfg lenient U64MAX' inp fuel = Ok o -> o_metadata o = Some (md, pad) ->
+  let J := splice md pad inp (s_off (o_data o)) (s_len (o_data o)) in
+  ilen J <= U64MAX -> (N.to_nat (ilen J / 8) < fuel2)%nat ->
+  mp4_sanitize cfg lenient2 U64MAX' J fuel2 =
+  Ok {| o_metadata := None; o_data := {| s_off := blen md + pad; s_len := s_len (o_data o) |} |}"""),
 ]
-TRUSTED = fam.TRUSTED_COMMON + ["axioms: none (Print Assumptions of the two theorems = Closed under the global context)"]
+TRUSTED = fam.TRUSTED_COMMON + ["axioms: none (Print Assumptions of the three theorems = Closed under the global context)",
+                                "Mp4/SpliceSpec.v: splice, the reading of `metadata followed by the media span` as an input"]
 ASSUMPTIONS = fam.ASSUMPTIONS_COMMON + [
-    "part (b) (C02_fixpoint: sanitizing metadata||media again returns (None, |md|, len)) is NOT proved; it is checked on every generated "
-    "case by a second run of the real implementation (and of the model) on the spliced input",
+    "C02_fixpoint: max_metadata_size < 2^32 (through C05's moov lemma), input length <= u64::MAX, the spliced file has a u64 length, the second "
+    "run uses the same configuration (either Skip behaviour) and at least ilen/8+1 units of fuel",
 ]
 RULE = ("the standard MP4 stream (seed layouts, gap lattice incl. gaps 1..7 / 0 / 8.., structure-aware random rewrite layouts dense and sparse with "
         "several moov and mdat boxes, trailing boxes, until-EOF moov, 64-bit headers; size pathologies; truncations; tree mutations; config lattice; "
         "all top-level sequences up to length 2 (quick) / 4 (thorough)); every accepted case with metadata is spliced (metadata || input[span]) and "
         "sanitized a second time by the implementation. Non-trivial = at least 40 bytes present; distinct = distinct case line.")
-LEVEL_TEXT = ("Part (a): theorems C02_metadata_is_boxes / C02_metadata_is_boxes_of_input (Coq, all inputs, configurations, readers, fuels): whenever the "
-              "model returns metadata, the specification's recogniser reads it as exactly ftyp, moov and optionally one free box of zeros with "
-              "explicit sizes tiling it completely, the ftyp payload being the input's and the moov payload having the length of the input's last "
-              "moov payload. Part (b) (re-sanitizing is a no-op) is decided by testing only: second run of the implementation on every accepted "
-              "case of the generated set, compared with the expected (None, |md|, len).")
-LEVEL_NOTE = ("Trusted: Coq kernel; hand-written model and its correspondence batch; Spec.v metadata_shape/explicit_sizes as the reading of "
-              "'sequence of boxes'; extraction + OCaml driver; Rust harness. No axioms. C02_fixpoint is not a theorem (sampled).")
+LEVEL_TEXT = ("Theorems, Coq, no axioms, all inputs / configurations / readers / fuels. (a) C02_metadata_is_boxes, C02_metadata_is_boxes_of_input: "
+              "whenever the model returns metadata, the specification's recogniser reads it as exactly ftyp, moov and optionally one free box of "
+              "zeros with explicit sizes tiling it completely, the ftyp payload being the input's and the moov payload having the length of the "
+              "input's last moov payload. (b) C02_fixpoint: sanitizing metadata || media-span again (same configuration, either reader) returns "
+              "(None, |metadata|, len) -- proved from the closed form of the loop: the tiling of the spliced file is [ftyp; moov; (free)] followed "
+              "by the relocated media boxes (an until-EOF box denotes `to the end` in both files), the rewritten moov payload still has its tables "
+              "(shift_spec) and now precedes the media. The second run of the real implementation on every accepted generated case is the oracle.")
+LEVEL_NOTE = ("Trusted: Coq kernel; hand-written model and its correspondence batch; Spec.v metadata_shape/explicit_sizes and SpliceSpec.v splice as "
+              "the reading of the property text; extraction + OCaml driver; Rust harness. No axioms. (b) needs limit < 2^32 and a u64 spliced length.")
 TECHNIQUE = "Coq proof about a hand-written model (part a) + extracted-model/Rust differential check + second-run oracle (part b)"
 DESIGN_REF = "DESIGN.md section 7 (C02)"
